@@ -57,10 +57,23 @@ def block_findings():
         out.append('* ' + f[len('fixed: '):] if f.startswith('fixed: ') else '* ' + f)
     return '\n'.join(out)
 
+def block_reverts():
+    f = f'{V}/seeded/reverts.json'
+    if not os.path.exists(f):
+        return ''
+    d = json.load(open(f))
+    rows = ['| fix reverted | property | defect put back | result of `./check <property> quick` |', '|---|---|---|---|']
+    for c, r in d.items():
+        res = r['result']
+        if r.get('violation_classes'):
+            res += ': `' + r['violation_classes'][0][:110].replace('|', '/') + '`'
+        rows.append(f'| {c} | {r["property"]} | {r["what"][:140].replace("|", "/")} | {res} |')
+    return '\n'.join(rows)
+
 def main():
     p = f'{V}/DESIGN.md'
     s = open(p).read()
-    for name, fn in (('asbuilt', block_asbuilt), ('seeded', block_seeded), ('findings', block_findings)):
+    for name, fn in (('asbuilt', block_asbuilt), ('seeded', block_seeded), ('findings', block_findings), ('reverts', block_reverts)):
         b, e = f'<!-- BEGIN GENERATED:{name} -->', f'<!-- END GENERATED:{name} -->'
         if b in s and e in s:
             s = s[:s.index(b) + len(b)] + '\n' + fn() + '\n' + s[s.index(e):]
